@@ -875,6 +875,13 @@ def simplify(e):
         if isinstance(a, tuple) and a[0] == "unsize":
             c = a[2]
             return ("int", int(c)) if c.isdigit() else ("cparam", c)
+    if e[0] == "load" and len(e) == 4 and isinstance(e[1], tuple) and e[1][:1] == ("ref",) and isinstance(e[1][1], tuple) and e[1][1][:1] == ("local",) \
+            and len(e[1][1]) == 3 and e[3][0] == "entry" and e[2] and all(isinstance(p_, str) for p_ in e[2]):
+        # memory "at entry" of a callee behind `&local`: the local's value at the call
+        v = e[1][1][2]
+        for p_ in e[2]:
+            v = simplify(("field", v, p_))
+        return v
     if e[0] == "field" and isinstance(e[1], tuple) and e[1][0] == "agg":
         for fname, fe in e[1][3]:
             if fname == e[2]:
@@ -917,6 +924,8 @@ def translate(callee, e, caller, b, args, generic_args):
             if ver[0] == "entry" and ver[1][0] == "M":
                 return ("load", sub(x[1]), tuple(sub(p) if isinstance(p, tuple) else p for p in x[2]), caller.version_at(b, n, ver[1]))
             raise Untranslatable()
+        if k == "call" and x[1] in PURE_HELPERS and len(x) == 4:
+            return ("call", x[1], tuple(sub(a) for a in x[2]), ("via", callee.short, x[3]))
         if k in ("phi", "memdef", "uninit", "undef", "mem0", "cyc", "call", "upd", "local"):
             raise Untranslatable()
         return tuple(sub(y) if isinstance(y, tuple) else y for y in x)
@@ -929,6 +938,8 @@ def entry_terms_only(e):
     for s in walk(e):
         if not isinstance(s, tuple) or not s:
             continue
+        if s[0] == "call" and s[1] in PURE_HELPERS and len(s) == 4:
+            continue  # a pure function of its arguments (which are walked too)
         if s[0] in ("phi", "memdef", "uninit", "undef", "cyc", "call", "upd", "local"):
             return False
         if s[0] == "load":
@@ -936,6 +947,10 @@ def entry_terms_only(e):
             if not (ver[0] == "entry"):
                 return False
     return True
+
+
+# crate helpers that are pure functions of their (usize) arguments: a call of one is a value like any other expression
+PURE_HELPERS = ("add_mod", "sub_mod")
 
 
 def p_variant(p):
